@@ -363,6 +363,26 @@ func init() {
 		gen: func(o genOpts, w *bufio.Writer) {
 			r := &rng{s: o.seed}
 			big := o.tier == "thorough"
+			// (first in the stream: after the large files below the heap is big, collections are rare, and buffers recycled between
+			// goroutines - the kind of sharing this operation is after - hardly ever change hands)
+			// files written by several goroutines at once (as concurrent charging requests do): every one of them must
+			// come out as when written alone
+			for i := 0; i < 4; i++ {
+				f := genWF(r, r.intn(64), false)
+				// many small records: the record headers are where encoders like to share buffers
+				for len(f.CdrList) < 400 {
+					body := r.bytes(1 + r.intn(6))
+					var h cdrFile.CdrHeader
+					h.CdrLength = uint16(len(body))
+					h.DataRecordFormat = cdrFile.BasicEncodingRules
+					h.ReleaseIdentifier = cdrFile.ReleaseIdentifierType(r.intn(7))
+					h.VersionIdentifier = uint8(r.intn(32))
+					h.TsNumber = cdrFile.TsNumberIdentifier(r.intn(32))
+					f.CdrList = append(f.CdrList, cdrFile.CDR{Hdr: h, CdrByte: body})
+				}
+				f.Hdr.NumberOfCdrsInFile = uint32(len(f.CdrList))
+				fmt.Fprintf(w, "cdrfile conc %s\n", sFile(f))
+			}
 			// files beyond 2^16 / 2^24 octets (records of up to 65535 octets)
 			fmt.Fprintf(w, "cdrfile big 3 65535 %d\n", r.intn(256))
 			fmt.Fprintf(w, "cdrfile big 257 65535 %d\n", r.intn(256))
@@ -421,24 +441,6 @@ func init() {
 					a, b = b, a
 				}
 				fmt.Fprintf(w, "cdrfile rewrite %s | %s\n", sFile(a), sFile(b))
-			}
-			// files written by several goroutines at once (as concurrent charging requests do): every one of them must
-			// come out as when written alone
-			for i := 0; i < 4; i++ {
-				f := genWF(r, r.intn(64), false)
-				// many small records: the record headers are where encoders like to share buffers
-				for len(f.CdrList) < 400 {
-					body := r.bytes(1 + r.intn(6))
-					var h cdrFile.CdrHeader
-					h.CdrLength = uint16(len(body))
-					h.DataRecordFormat = cdrFile.BasicEncodingRules
-					h.ReleaseIdentifier = cdrFile.ReleaseIdentifierType(r.intn(7))
-					h.VersionIdentifier = uint8(r.intn(32))
-					h.TsNumber = cdrFile.TsNumberIdentifier(r.intn(32))
-					f.CdrList = append(f.CdrList, cdrFile.CDR{Hdr: h, CdrByte: body})
-				}
-				f.Hdr.NumberOfCdrsInFile = uint32(len(f.CdrList))
-				fmt.Fprintf(w, "cdrfile conc %s\n", sFile(f))
 			}
 			if cdrTmp != "" {
 				os.RemoveAll(cdrTmp)
